@@ -224,6 +224,11 @@ pub fn run_free(op: &FreeOp, obs: &mut Obs) -> Vec<(String, String, String)> {
                 let c2 = h265::HevcConfig::new(vec![*b], bytes, vec![]);
                 let _ = (c2.general_profile_space(), c2.general_tier_flag(), c2.general_profile_idc(), c2.general_level_idc());
             });
+            g("validation::ValidationResult", &mut || {
+                let v = muxide::validation::ValidationResult::invalid(vec![s.clone()]).with_message(s.clone());
+                let w = muxide::validation::ValidationResult::valid().with_error(s.clone());
+                let _ = format!("{:?} {:?} {}", v, w, v == w);
+            });
             g("invariant_ppt::log", &mut || {
                 let _ = muxide::invariant_ppt::get_logged_invariants();
                 muxide::invariant_ppt::clear_invariant_log();
